@@ -72,6 +72,13 @@ CHECKS = {
             "NoneType or a type; decoded types are compared structurally (never with ==), encoding determinism is checked against an "
             "independently rebuilt twin type.",
             TRUST + "json / importlib are C and IO boundaries (concrete per path).", "DESIGN.md#C08"),
+    "C11": (True, "model_checking",
+            "symbolic execution of the real stub renderer (CrossHair+z3): solver-chosen module-name pairs from all dotted identifiers up to a length bound; tape-decoded types validated through an independent stub evaluator",
+            "(A) every pair of module names from the complete set of dotted identifiers over {a,b,.} up to the length bound, with class "
+            "placements and container contexts, is pushed through build_module_stubs().render() and compared with the independently composed "
+            "stub; (B) every grammar type at every position/context is rendered by the real pipeline and the stub text is evaluated with only "
+            "the names the stub provides; the evaluated annotation must equal the type structurally. Bounded trees are exhausted.",
+            TRUST + "The stub evaluator harness/stubeval.py is part of the trusted oracle. Same-named classes from two modules are outside the claim.", "DESIGN.md#C11"),
 }
 
 NOT_APPLICABLE = {
